@@ -233,6 +233,9 @@ def _trait(selfty, trait, tname, method, c):
                 t = d.args[0]
                 if t.kind == "int" and isinstance(a[0], Int): return try_from_int(I, a[0], t.name)
                 if t.kind == "array": return colls.array_try_from(I, a[0], t)
+                if t.kind == "adt":
+                    f = I.P._find_trait_method(t.name, f"TryFrom<{selfty}>", "try_from", fr.fn.crate)
+                    if f is not None: return I.run_fn(f, [a[0]])
             return NotImplemented
         return ti
     if tname == "From" and method == "from":
